@@ -369,13 +369,13 @@ theorem declTyped_type (decls : List Decl) (n : Bytes) (t : GoTy) : Decl.typedOk
 theorem declTyped_alias (decls : List Decl) (n : Bytes) (t : GoTy) : Decl.typedOk decls (.alias n t) = true := rfl
 theorem declTyped_iface (decls : List Decl) (n : Bytes) (ms : List IfaceMethod) : Decl.typedOk decls (.iface n ms) = true := rfl
 
-theorem aliasView_typed (decls : List Decl) (m : Member) (l : List Decl) (hl : aliasView m = some l) :
+theorem aliasView_typed (decls : List Decl) (t : Idl) (m : Member) (l : List Decl) (hl : aliasView t m = some l) :
     l.all (Decl.typedOk decls) = true := by
   cases m with
   | alias n d ty =>
     simp only [aliasView, Option.map_eq_some_iff] at hl
     obtain ⟨g, _, rfl⟩ := hl
-    cases isAliasDecl ty <;> rfl
+    cases resolvesToObject t ty <;> rfl
   | method => simp [aliasView] at hl; subst hl; rfl
   | error => simp [aliasView] at hl; subst hl; rfl
 
@@ -762,13 +762,13 @@ theorem ifaceMethods_find : ∀ (ms : List Member) (r : List IfaceMethod),
 
 
 
-theorem aliasView_noIface (m : Member) (l : List Decl) (hl : aliasView m = some l) :
+theorem aliasView_noIface (t : Idl) (m : Member) (l : List Decl) (hl : aliasView t m = some l) :
     l.all (fun d => !d.isIface) = true := by
   cases m with
   | alias n d ty =>
     simp only [aliasView, Option.map_eq_some_iff] at hl
     obtain ⟨g, _, rfl⟩ := hl
-    cases isAliasDecl ty <;> rfl
+    cases resolvesToObject t ty <;> rfl
   | method => simp [aliasView] at hl; subst hl; rfl
   | error => simp [aliasView] at hl; subst hl; rfl
 
@@ -847,7 +847,7 @@ theorem typedOk_genFile (t : Idl) (f : GoFile) (hm : ∀ m ∈ t.members, Member
     rw [hDeq]
     simp
   have hI : lookupIface decls (pkgName t.name ++ str "Interface") = some ifaceMethods := by
-    have n1 := concatOptL_all aliasView (fun d => !d.isIface) _ _ (fun m _ x hx => aliasView_noIface m x hx) e1
+    have n1 := concatOptL_all (aliasView t) (fun d => !d.isIface) _ _ (fun m _ x hx => aliasView_noIface t m x hx) e1
     have n2 := concatOptL_all errorView (fun d => !d.isIface) _ _ (fun m _ x hx => errorView_noIface m x hx) e2
     have n3 := concatOptL_all (methodClientView t.name) (fun d => !d.isIface) _ _
       (fun m _ x hx => methodClientView_noIface _ m x hx) e3
@@ -861,7 +861,7 @@ theorem typedOk_genFile (t : Idl) (f : GoFile) (hm : ∀ m ∈ t.members, Member
     have := nodup_filter_map Member.name Member.isMethod t.members htop.unique
     simpa [Idl.methods, List.filter_filter] using this)
   -- the pieces
-  have a1 := concatOptL_all aliasView (Decl.typedOk decls) _ _ (fun m _ x hx => aliasView_typed decls m x hx) e1
+  have a1 := concatOptL_all (aliasView t) (Decl.typedOk decls) _ _ (fun m _ x hx => aliasView_typed decls t m x hx) e1
   have a2 := concatOptL_all errorView (Decl.typedOk decls) _ _
     (fun m hm' x hx => errorView_typed decls m (sub _ m hm') x hx (fun n d oty ty e hty => hE m hm' n d oty ty e hty)) e2
   have a3 := concatOptL_all (methodClientView t.name) (Decl.typedOk decls) _ _
